@@ -802,6 +802,10 @@ class Interp:
         sa, sb = isinstance(a, Sym), isinstance(b, Sym)
         if not sa and not sb:
             if isinstance(a, Opaque) or isinstance(b, Opaque):
+                name = {ast.Add: '__add__', ast.Sub: '__sub__', ast.Mult: '__mul__', ast.Div: '__truediv__',
+                        ast.Mod: '__mod__', ast.BitOr: '__or__', ast.BitAnd: '__and__'}.get(opcls)
+                if name is not None and isinstance(a, Opaque) and self.reg.opaque_has(self, a, name):
+                    return self.reg.call_opaque(self, a, name, [b], {})
                 raise Unsupported('binary operator on opaque object')
             if opcls is ast.Mod and isinstance(a, str) and contains_sym(b):
                 return SStr(self.st.fresh_str('fmt'))
